@@ -515,8 +515,8 @@ class SymReal:
     def __rmod__(s, o): raise Unsupported("mod on reals")
     def __pow__(s, o, mod=None): return _pow(s, o) if _num(o) else NotImplemented
     def __rpow__(s, o, mod=None): return _pow(o, s) if _num(o) else NotImplemented
-    def __eq__(s, o): return SymBool(s.t == R(o)) if _num(o) else (False if not isinstance(o, SymComplex) else False)
-    def __ne__(s, o): return SymBool(s.t != R(o)) if _num(o) else True
+    def __eq__(s, o): return SymBool(s.t == R(o)) if _num(o) else (False if isinstance(o, (SymComplex, str, type(None))) else NotImplemented)
+    def __ne__(s, o): return SymBool(s.t != R(o)) if _num(o) else (True if isinstance(o, (SymComplex, str, type(None))) else NotImplemented)
     def __lt__(s, o): return SymBool(s.t < R(o)) if _num(o) else NotImplemented
     def __le__(s, o): return SymBool(s.t <= R(o)) if _num(o) else NotImplemented
     def __gt__(s, o): return SymBool(s.t > R(o)) if _num(o) else NotImplemented
@@ -717,6 +717,9 @@ class SymComplex:
 
 
 HASH_HOOK = [None]
+import numbers as _numbers  # noqa: E402
+_numbers.Real.register(SymReal)
+_numbers.Integral.register(SymInt)
 
 
 def _div(a, b):
